@@ -107,7 +107,7 @@ func (t *ArrayTupleOfValue) CloneArrayTuple(capacity int) ArrayTuple {
 }
 
 func (t *ArrayTupleOfValue) SliceArrayTuple(from, to int) ArrayTuple {
-	n := (*t)[from:to]
+	n := (*t)[from:to:to]
 	return &n
 }
 
